@@ -193,6 +193,7 @@ func (x *world) endChecks(sess []*stcp.Session, conns []*conn) {
 
 // session scenario: one or two sessions, local senders/closer, peer writer/closer, faults by explorer choice
 type sessProg struct {
+	lateStart  bool // Send and Close are issued BEFORE Start (life-cycle order nobody wrote)
 	name       string
 	sessions   int
 	sends      []string // payloads the local side sends (then, if localClose, closes)
@@ -222,8 +223,10 @@ func sessScenario(p sessProg) *mc.Scenario {
 				i := i
 				s, c := sess[i], conns[i]
 				w.Go(fmt.Sprintf("local%d", i), func() {
-					s.Start()
-					s.Start() // idempotent
+					if !p.lateStart {
+						s.Start()
+						s.Start() // idempotent
+					}
 					for _, pl := range p.sends {
 						if err := s.Send([]byte(pl)); err == nil {
 							w.Touch()
@@ -232,6 +235,9 @@ func sessScenario(p sessProg) *mc.Scenario {
 					}
 					if p.localClose {
 						s.Close()
+					}
+					if p.lateStart {
+						s.Start()
 					}
 				})
 				if p.peerFrames != "" || p.peerClose {
@@ -372,6 +378,9 @@ func scenarios() []*mc.Scenario {
 		scs = append(scs, sessScenario(sessProg{name: fmt.Sprintf("local-close-flush/sends=%d", k), sessions: 1, sends: []string{"ab", "c", "def"}[:k], localClose: true, flush: true, pb: [2]int{3, 4}}))
 	}
 	scs = append(scs, sessScenario(sessProg{name: "local-close-flush/sends=2/peer-also-writes", sessions: 1, sends: []string{"ab", "c"}, localClose: true, peerFrames: "xy", flush: true, pb: [2]int{2, 3}}))
+	scs = append(scs,
+		sessScenario(sessProg{name: "late-start/send-send-close-then-start", sessions: 1, lateStart: true, sends: []string{"ab", "c"}, localClose: true, flush: true, pb: [2]int{3, 4}}),
+		sessScenario(sessProg{name: "late-start/close-then-start/peer-writes", sessions: 1, lateStart: true, localClose: true, peerFrames: "x", flush: true, pb: [2]int{3, 4}}))
 	// every terminating event, alone and in combination, with one (two) injected faults
 	scs = append(scs,
 		sessScenario(sessProg{name: "peer-close", sessions: 1, sends: []string{"ab"}, peerFrames: "x", peerClose: true, pb: [2]int{3, 4}}),
